@@ -91,47 +91,38 @@ def d7_1(ctx):
         ctx.ok(f"{DT}#unpinned-spec-rows", ctx.model.module(DT).tree.body[0], "specification rows without a class (not judged)", rows=missing)
 
 
-@rule(P, "D7.2", "T-SPEC", floor=2)
+@rule(P, "D7.2", "T-WITNESS", floor=2)
 def d7_2(ctx):
-    """BOOL encodes exactly FF / 00 by truthiness and decodes 'non-zero is true' from one byte."""
+    """BOOL encodes exactly FF / 00 by truthiness and decodes 'non-zero is true' from one byte.  Decided by folding the class's public
+    encode / decode on witness values (True, False, 1, 0, 2, -1, "x", "", [0], [], None) and bytes (00, 01, 80, FF, a longer stream of
+    which exactly one byte is consumed, an empty stream); an earlier form required a conditional expression in `_encode`."""
+    from ..miniinterp import Obj, Stream, fold_method
+
     sp = ctx.spec("cip_types")["bool"]
     c = ctx.model.cls(f"{DT}:BOOL")
-    enc = c.methods.get("_encode")
-    dec = c.methods.get("_decode")
     t, f = bytes.fromhex(sp["true"]), bytes.fromhex(sp["false"])
-    good, facts = False, {}
-    if enc is not None:
-        param = enc.args.args[1].arg
-        rets = [r for r in walk(enc) if isinstance(r, ast.Return)]
-        if len(rets) == 1 and isinstance(rets[0].value, ast.IfExp):
-            e = rets[0].value
-            a, b = ctx.folder.eval(e.body, c.module), ctx.folder.eval(e.orelse, c.module)
-            pos = atom_name(e.test) == param or (isinstance(e.test, ast.Call) and call_name(e.test) == "bool" and atom_name(e.test.args[0]) == param)
-            neg = isinstance(e.test, ast.UnaryOp) and isinstance(e.test.op, ast.Not) and atom_name(e.test.operand) == param
-            facts = {"true_branch": a, "false_branch": b, "test": src(e.test)}
-            good = (pos and a == t and b == f) or (neg and a == f and b == t)
-        elif len(rets) == 2:
-            # if value: return FF ; return 00
-            vals = [ctx.folder.eval(r.value, c.module) for r in rets]
-            ifs = [n for n in walk(enc) if isinstance(n, ast.If)]
-            if len(ifs) == 1 and atom_name(ifs[0].test) == param:
-                in_if = [r for r in rets if any(x is r for s in ifs[0].body for x in walk(s))]
-                other = [r for r in rets if r not in in_if]
-                if len(in_if) == 1 and len(other) == 1:
-                    good = ctx.folder.eval(in_if[0].value, c.module) == t and ctx.folder.eval(other[0].value, c.module) == f
-            facts = {"returns": vals}
-    ctx.check(good, ckey(c.key + "._encode"), enc or c.node, "True -> FF, False -> 00", f"BOOL._encode does not produce {sp['true'].upper()}/{sp['false'].upper()} by truthiness", **facts)
-    good, facts = False, {}
-    if dec is not None:
-        rl = reads(ctx, c)[2]
-        rets = [r for r in walk(dec) if isinstance(r, ast.Return)]
-        if len(rets) == 1 and isinstance(rets[0].value, ast.Compare) and len(rets[0].value.ops) == 1:
-            cmp = rets[0].value
-            k = ctx.folder.eval(cmp.comparators[0], c.module)
-            facts = {"compare": src(cmp), "reads": rl}
-            good = rl == [("read", 1)] and ((isinstance(cmp.ops[0], ast.NotEq) and k == f) or (isinstance(cmp.ops[0], ast.Eq) and k == f and False))
-    ctx.check(good, ckey(c.key + "._decode"), dec or c.node, "one byte, true iff != 00", "BOOL._decode is not `one byte != 00`", **facts)
-
+    cw = Obj(_ci=c, _is_class=True)
+    for v in (True, False, 1, 0, 2, -1, "x", "", [0], [], None, 0.0, 0.5):
+        kind, res = fold_method(ctx, cw, "encode", [v], {}, None)
+        key = ckey(c.key + "._encode", f"witness:{v!r}")
+        if kind == "unknown":
+            ctx.undecided(key, c.node, f"BOOL.encode not foldable on {v!r}: {res}")
+            continue
+        res = bytes(res) if isinstance(res, bytearray) else res
+        want = t if v else f
+        ctx.check(kind == "return" and res == want, key, c.methods.get("_encode") or c.node, f"BOOL.encode({v!r}) = {want.hex()}", f"BOOL.encode({v!r}) gives {kind} {res!r}; the CIP BOOL is {want.hex()} for a {'true' if v else 'false'} value")
+    for data, want, used in ((b"\x00", False, 1), (b"\x01", True, 1), (b"\x80", True, 1), (b"\xff", True, 1), (b"\x00\xff", False, 1), (b"\x02\x00", True, 1)):
+        st = Stream(data)
+        kind, res = fold_method(ctx, cw, "decode", [st], {}, None)
+        key = ckey(c.key + "._decode", f"witness:{data.hex()}")
+        if kind == "unknown":
+            ctx.undecided(key, c.node, f"BOOL.decode not foldable on {data.hex()}: {res}")
+            continue
+        ctx.check(kind == "return" and res is want and st.pos == used, key, c.methods.get("_decode") or c.node, f"BOOL.decode({data.hex()}) = {want}, one byte consumed",
+                  f"BOOL.decode({data.hex()}) gives {kind} {res!r} after {st.pos} byte(s); expected {want} (non-zero is true) after exactly one byte")
+    kind, res = fold_method(ctx, cw, "decode", [Stream(b"")], {}, None)
+    if kind != "unknown":
+        ctx.check(kind == "raise" and res in ("BufferEmptyError", "DataError"), ckey(c.key + "._decode", "witness:empty"), c.node, "BOOL.decode of an empty stream raises", f"BOOL.decode of an empty stream gives {kind} {res!r} instead of raising")
 
 def _string_classes(ctx):
     base = ctx.model.cls(f"{DT}:StringDataType")
